@@ -391,12 +391,18 @@ def r4_strict(R) -> None:
             continue
         k = ks[0]
         atoms = [(text(a), truth) for (a, truth, _t) in f.guard_atoms(k.id)]
-        R.check(('strict', True) in atoms and ('undefined_variables', True) in atoms, q, 'strict-guard:' + repr(atoms)[:80],
+        # the set of unknown keys, by role: the local defined as `set(<fill keys>) - set(<the variables>)`, whatever its name
+        UV = 'undefined_variables'
+        for n_ in f.cfg.nodes:
+            if n_.kind == 'stmt' and isinstance(n_.ast, ast.Assign) and len(n_.ast.targets) == 1 and isinstance(n_.ast.targets[0], ast.Name) \
+                    and text(n_.ast.value) == f'set(fill_values.keys()) - set({names_attr})':
+                UV = n_.ast.targets[0].id
+        R.check(('strict', True) in atoms and ((UV, True) in atoms or (f'len({UV}) > 0', True) in atoms or (f'len({UV})', True) in atoms), q, 'strict-guard:' + repr(atoms)[:80],
                 'unknown fill keys are rejected exactly under strict', f'KeyError guard is {atoms}', where=f.where(k))
         ds = [d for d in f.assigns_to('strict')]
         ok = len(ds) == 1 and text(ds[0].ast.value) == 'self.strict' and any(truth and text(a) == 'strict is None' for (a, truth, _t) in f.guard_atoms(ds[0].id))
         R.check(ok, q, 'strict-default', "strict=None means the object's own setting", 'strict default is not `if strict is None: strict = self.strict`', where=f.fi.where)
-        uv = f.assigns_to('undefined_variables')
+        uv = f.assigns_to(UV)
         ok = len(uv) == 1 and text(uv[0].ast.value) == f'set(fill_values.keys()) - set({names_attr})'
         R.check(ok, q, 'undefined-set', 'unknown = fill keys minus the variables', f'`{text(uv[0].ast.value) if uv else "?"}`', where=f.fi.where)
         # before the copy
